@@ -9,7 +9,8 @@ RULE = ("for every base tuple (key length x AAD length x ciphertext length): the
         "truncation/extension by one byte, moving a byte across the AAD/ciphertext boundary in both directions, swapping AAD and ciphertext, zero tag, "
         "tag of the swapped-length tuple; each case is decided by the one-shot decryptor and by the incremental decryptor in three chunkings (halves continuing on clones; an odd piece, a 16-multiple piece, the rest) (the split one continuing on clones taken in the AAD phase and in the data phase); the "
         "expected verdict is computed: accept iff supplied tag == model tag of exactly the supplied inputs; non-trivial = mutated case; distinct = program text"
-        " Also: the split incremental interface continues on clones taken in the AAD phase and in the data phase; component shards as in C06; the corpus again on the checked-arithmetic and native builds.")
+        " Also: the split incremental interface continues on clones taken in the AAD phase and in the data phase; component shards as in C06; the corpus again on the checked-arithmetic and native builds."
+        " Very large total: a ciphertext of 2^32 + 64 zero bytes through one decryption context (64 in-place calls): the RFC tag accepted, the tag with the length modulo 2^32 and the tag of a shorter ciphertext refused (closed-form Poly1305 of a run of identical blocks).")
 ASSUMPTIONS = ["python RFC 8439 AEAD model as in C06", "ciphertext/AAD content from the pattern alphabet; bit positions beyond the first/last/boundary bytes of long inputs are not flipped"]
 
 
@@ -19,7 +20,8 @@ def builds_needed(tier):
 
 # Own corpus re-run on other builds of the crate (mc/core.py: extra builds). Every observation is compared with the same model.
 def extra_builds(tier):
-    return [("relchk", None), ("native", None), ("fe32", None)]
+    light = lambda f, a: f != "shard_huge"          # the 4 GiB ciphertext: default and checked-arithmetic builds only
+    return [("relchk", None), ("native", light), ("fe32", light), ("nosse2", light)]
 
 
 
@@ -183,11 +185,33 @@ def shards(tier):
     from props import c05
     # the AEAD tag is a Poly1305 tag under a one-time key the caller cannot choose: the rare accumulator states of the MAC
     # (limb carries, the 2^130 wrap, the final conditional subtraction) are therefore driven on the MAC directly, as a component
-    sh = _own_shards(tier) + [("shard_poly_component", ("shard_limbs", i)) for i in range(c05.NLIMB)] + [("shard_poly_component", ("shard_crafted", None))]
+    sh = [("shard_huge", r) for r in ((20, 8, 12) if tier == "thorough" else (20,))] + _own_shards(tier) + [("shard_poly_component", ("shard_limbs", i)) for i in range(c05.NLIMB)] + [("shard_poly_component", ("shard_crafted", None))]
     # likewise the cipher half: block counters beyond the first few blocks (a message of 4 MiB and more) are reached by seek on the
     # same ChaCha context type the AEAD drives
     sh += [("shard_chacha_component", ("shard_counterbits", ("chacha", 20))), ("shard_chacha_component", ("shard_seekhist", 20))]
     return sh
+
+
+def shard_huge(rounds, tier):
+    """a ciphertext of 2^32 + 64 bytes through one decryption context (the byte count that goes into the tag passes 2^32), fed as 64
+    in-place calls of 2^26 + 1 zero bytes: the RFC 8439 tag is accepted, the tag that carries the length modulo 2^32 and the tag of
+    the ciphertext one call short are refused. The expected tags come from the closed form for a run of identical Poly1305 blocks
+    (models/poly.py: poly1305_parts, checked against the block-by-block model on short runs)."""
+    ck = core.Checker(PROPERTY_ID)
+    key, nonce, aad = pat(6, 2, 32), pat(7, 5, 12), pat(2, 7, 13)
+    chunk, cnt = (1 << 26) + 1, 64
+    total = chunk * cnt
+    for n in (0, 1, 15, 16, 17, 100, 4101):
+        assert poly.aead_tag(key, nonce, aad, bytes(n), rounds) == poly.aead_tag_zero_ciphertext(key, nonce, aad, n, rounds)
+    good = poly.aead_tag_zero_ciphertext(key, nonce, aad, total, rounds)
+    wrapped = poly.aead_tag_zero_ciphertext(key, nonce, aad, total, rounds, claimed_len=total % (1 << 32))
+    short = poly.aead_tag_zero_ciphertext(key, nonce, aad, total - chunk, rounds)
+    ops = ["actx_new s0 %d %s %s" % (rounds, P(6, 2, 32), P(7, 5, 12)), "actx_aad s0 %s" % P(2, 7, 13), "actx_todec s0",
+           "adec_rep s0 p:0:0:%d %d" % (chunk, cnt - 1), "aclone s0 s3", "adec_rep s0 p:0:0:%d 1" % chunk, "aclone s0 s1", "aclone s0 s2",
+           "adec_fin s0 %s" % H(good), "adec_fin s1 %s" % H(wrapped), "adec_fin s2 %s" % H(short), "adec_fin s3 %s" % H(short)]
+    ck.run([(ops, ["-"] * 8 + ["T", "F", "F", "T"], {"mut": True})], nontrivial=lambda o, m: True)
+    ck.stats.states = 1
+    return ck.stats
 
 
 def shard_chacha_component(arg, tier):
